@@ -30,9 +30,64 @@ def is_boolish(v):
     return isinstance(v, bool) or (is_sym(v) and z3.is_bool(v))
 
 
+class XR:
+    """A float that may be NaN: (v, nan).  `v` is the real value when `nan` is false and is
+    meaningless otherwise.  Arithmetic propagates the flag (IEEE), every ordered comparison and
+    `==` with a NaN operand is false, `!=` is true.  Infinities are not modelled.  Only values that
+    can actually be NaN are represented this way (np.nan stores, arrays declared 'xreal')."""
+    __slots__ = ("v", "nan")
+
+    def __init__(self, v, nan):
+        self.v, self.nan = v, nan
+
+    def __repr__(self):
+        return f"XR({self.v}, nan={self.nan})"
+
+
+def xr(v, nan):
+    """smart constructor: a value that is certainly not NaN stays a plain term"""
+    if isinstance(v, XR):
+        v, nan = v.v, lor(v.nan, nan)
+    if isinstance(nan, bool) and not nan:
+        return v
+    if is_sym(nan):
+        nan = z3.simplify(nan)
+        if z3.is_false(nan):
+            return v
+        if z3.is_true(nan):
+            nan = True
+    return XR(v, nan)
+
+
+def xval(a):
+    return a.v if isinstance(a, XR) else a
+
+
+def xnan(a):
+    return a.nan if isinstance(a, XR) else False
+
+
+def _xlift(fn, *ops):
+    return xr(fn(*[xval(o) for o in ops]), lor(*[xnan(o) for o in ops]))
+
+
+def _anyx(*ops):
+    for o in ops:
+        if isinstance(o, XR):
+            return True
+    return False
+
+
+def is_val(v):
+    """number, boolean or NaN-able number"""
+    return is_num(v) or is_boolish(v) or isinstance(v, XR)
+
+
 def to_z3(v):
     if is_sym(v):
         return v
+    if isinstance(v, XR):
+        raise Unsupported("possibly-NaN value used where a real number is required")
     if isinstance(v, bool):
         return z3.BoolVal(v)
     if isinstance(v, int):
@@ -79,6 +134,8 @@ def _b2n(v):
 
 
 def add(a, b):
+    if _anyx(a, b):
+        return _xlift(add, a, b)
     a, b = _b2n(a), _b2n(b)
     if is_conc_num(a) and is_conc_num(b):
         return a + b
@@ -90,6 +147,8 @@ def add(a, b):
 
 
 def sub(a, b):
+    if _anyx(a, b):
+        return _xlift(sub, a, b)
     a, b = _b2n(a), _b2n(b)
     if is_conc_num(a) and is_conc_num(b):
         return a - b
@@ -99,6 +158,8 @@ def sub(a, b):
 
 
 def mul(a, b):
+    if _anyx(a, b):
+        return _xlift(mul, a, b)
     a, b = _b2n(a), _b2n(b)
     if is_conc_num(a) and is_conc_num(b):
         return a * b
@@ -113,6 +174,8 @@ def mul(a, b):
 
 
 def neg(a):
+    if isinstance(a, XR):
+        return _xlift(neg, a)
     a = _b2n(a)
     if is_conc_num(a):
         return -a
@@ -120,6 +183,8 @@ def neg(a):
 
 
 def div(a, b):
+    if _anyx(a, b):
+        return _xlift(div, a, b)
     a, b = _b2n(a), _b2n(b)
     if is_conc_num(a) and is_conc_num(b):
         if b == 0:
@@ -135,6 +200,8 @@ def _is_intlike(v):
 
 
 def floordiv(a, b):
+    if _anyx(a, b):
+        return _xlift(floordiv, a, b)
     a, b = _b2n(a), _b2n(b)
     if is_conc_num(a) and is_conc_num(b):
         return a // b if isinstance(a, int) and isinstance(b, int) else Fraction((a // b))
@@ -150,6 +217,8 @@ def floordiv(a, b):
 
 
 def mod(a, b):
+    if _anyx(a, b):
+        return _xlift(mod, a, b)
     a, b = _b2n(a), _b2n(b)
     if is_conc_num(a) and is_conc_num(b):
         return a % b
@@ -164,6 +233,8 @@ WRAPS = []  # (period term, integer term k) of every real modulo built in this p
 
 
 def absv(a):
+    if isinstance(a, XR):
+        return _xlift(absv, a)
     a = _b2n(a)
     if is_conc_num(a):
         return abs(a)
@@ -171,6 +242,8 @@ def absv(a):
 
 
 def power(a, b):
+    if _anyx(a, b):
+        return _xlift(power, a, b)
     a, b = _b2n(a), _b2n(b)
     if isinstance(b, Fraction) and b.denominator == 1:
         b = int(b)
@@ -195,6 +268,10 @@ def power(a, b):
 
 
 def cmp(op, a, b):
+    if _anyx(a, b):
+        c = cmp(op, xval(a), xval(b))
+        anyn = lor(xnan(a), xnan(b))
+        return lor(anyn, c) if op == "!=" else land(lnot(anyn), c)
     a, b = _b2n(a) if not is_boolish(a) or is_num(b) else a, _b2n(b) if not is_boolish(b) or is_num(a) else b
     if not is_sym(a) and not is_sym(b):
         return {"<": a < b, "<=": a <= b, ">": a > b, ">=": a >= b, "==": a == b,
@@ -216,6 +293,8 @@ def cmp(op, a, b):
 def ite(c, a, b):
     if isinstance(c, bool):
         return a if c else b
+    if _anyx(a, b):
+        return xr(ite(c, xval(a), xval(b)), ite(c, xnan(a), xnan(b)))
     if a is b:
         return a
     if not is_sym(a) and not is_sym(b):
@@ -275,6 +354,7 @@ def implies(a, b):
 # --------------------------------------------------------------------------- theory
 PI = z3.Real("pi")
 INF = z3.Real("inf_")  # np.inf: an opaque value; only (dis)equality with it is meaningful
+NAN = XR(Fraction(0), True)  # np.nan
 UF1 = {n: z3.Function("u_" + n, RealS, RealS) for n in
        ("exp", "log", "sqrt", "sin", "cos", "tan", "tanh", "sinh", "cosh", "arctan",
         "arcsin", "arccos")}
@@ -282,6 +362,8 @@ UF2 = {n: z3.Function("u_" + n, RealS, RealS, RealS) for n in ("arctan2", "powr"
 
 
 def uf(name, a):
+    if isinstance(a, XR):
+        return xr(uf(name, a.v), a.nan)
     a = _b2n(a)
     if name == "sqrt" and is_conc_num(a):
         # exact rational square roots stay concrete
@@ -302,6 +384,8 @@ def uf(name, a):
 
 
 def uf2(name, a, b):
+    if _anyx(a, b):
+        return xr(uf2(name, xval(a), xval(b)), lor(xnan(a), xnan(b)))
     return UF2[name](to_real(a), to_real(b))
 
 
